@@ -208,6 +208,9 @@ func (fc *FuncCtx) execStmt(st *State, s ast.Stmt) flow {
 				if i < len(vs.Values) {
 					v := fc.evalExpr(st, vs.Values[i])
 					fc.assignObj(st, obj, v)
+				} else if isStruct(obj.Type()) && fc.sortOf(obj.Type()).Kind == "V" {
+					// a struct variable is an object of its own (its address is non-nil and fresh)
+					st.env[obj] = Val{T: fc.newRef(st, n.Name), Typ: obj.Type()}
 				} else {
 					st.env[obj] = Val{T: fc.zeroVal(obj.Type(), n.Name), Typ: obj.Type()}
 				}
@@ -262,7 +265,7 @@ func (fc *FuncCtx) execDeferNote(st *State, d *ast.DeferStmt) {
 }
 
 func (fc *FuncCtx) reachPanic(st *State, pos token.Pos, what string) {
-	if fc.contract != nil && fc.contract.NoPanic {
+	if fc.contract != nil && (fc.contract.NoPanic || fc.contract.Opts["explicitpanic"] == "on") {
 		fc.emit(st, "nopanic", what+" unreachable", TFalse, pos, "")
 	}
 }
